@@ -17,7 +17,7 @@
 (* checking q ranges over every subset of defects; in trace validation     *)
 (* (Trace_Req.tla) it is computed from wire bytes by Request!Q.            *)
 (***************************************************************************)
-EXTENDS Naturals, Integers, Sequences, FiniteSets, TLC
+EXTENDS Naturals, Integers, Sequences, FiniteSets, TLC, Errors
 
 CONSTANTS MaxDefects,      \* explore requests with at most this many simultaneous defects
           MaxValidations,  \* validations sharing one provider in a history
@@ -31,17 +31,6 @@ Carriers == {"hdr", "qry", "both", "none"}
 
 \* error kinds a provider may return as a SignatureError (passed through unchanged)
 ProviderSigKinds == {"InvalidClientTokenId", "ExpiredToken", "SignatureDoesNotMatch", "InternalServiceError"}
-
-\* the fixed kind -> HTTP status table (error.rs)
-Status(kind) ==
-    CASE kind \in {"IncompleteSignature", "InvalidBodyEncoding", "InvalidRequestMethod", "InvalidURIPath",
-                   "MalformedQueryString", "MissingAuthenticationToken"} -> 400
-      [] kind \in {"IO", "InternalServiceError"} -> 500
-      [] kind \in {"ExpiredToken", "InvalidClientTokenId", "InvalidContentType", "SignatureDoesNotMatch"} -> 403
-Code(kind) == IF kind \in {"IO", "InternalServiceError"} THEN "InternalFailure" ELSE kind
-AllKinds == {"ExpiredToken", "IO", "InternalServiceError", "InvalidBodyEncoding", "InvalidClientTokenId",
-             "InvalidContentType", "InvalidRequestMethod", "IncompleteSignature", "InvalidURIPath",
-             "MalformedQueryString", "MissingAuthenticationToken", "SignatureDoesNotMatch"}
 
 \* which error kind a failing rule produces
 KindOf(rule, q) ==
